@@ -22,19 +22,54 @@ func VerifHarness_C19_CorruptionReported() {
 	sym.Assume(pos <= blockSize)
 	blk := sym.Block("block0", blockSize)
 
-	// the following block, written by the real writer
+	// what lies between the damage and the evidence (see below); with a block in between the
+	// evidence block is kept to one chunk
+	between := sym.Choose("block-between", 4)
+
+	// the evidence: a following block written by the real writer
 	w := &LogWriter{logNum: logNum, block: &block{}}
-	nChunks := 1 + sym.Choose("later-chunks", 2)
+	nChunks := 1
+	if between == 0 {
+		nChunks = 1 + sym.Choose("later-chunks", 2)
+	}
 	synced := make([]uint64, nChunks)
 	for i := 0; i < nChunks; i++ {
 		synced[i] = sym.U64("syncedOffset")
 		w.syncedOffset.Store(synced[i])
-		w.emitFragmentSyncOffsets(0, sym.BytesN("later-payload", sym.Choose("later-len", 3)))
+		plen := 1
+		if between == 0 {
+			plen = sym.Choose("later-len", 3)
+		}
+		w.emitFragmentSyncOffsets(0, sym.BytesN("later-payload", plen))
 	}
 	next := make([]byte, blockSize)
 	copy(next, w.block.buf[:])
 
-	r := &Reader{r: &hBlocks{blocks: [][]byte{next}}, logNum: logNum, blockNum: 0, begin: pos, end: pos, n: blockSize, invalidOffset: math.MaxUint64}
+	// Optionally a block lies between the damage and the evidence: all zeros (a zeroed or
+	// preallocated extent), a stale chunk of another log (recycled file), or an intact chunk of
+	// this log that proves nothing, followed by zeros. The read-ahead has to look past it.
+	following := [][]byte{next}
+	switch between {
+	case 1:
+		following = [][]byte{make([]byte, blockSize), next}
+	case 2:
+		other := sym.U32("stale-log")
+		sym.Assume(other != logNum)
+		sw := &LogWriter{logNum: other, block: &block{}}
+		sw.emitFragmentSyncOffsets(0, sym.BytesN("stale-payload", 1))
+		mid := make([]byte, blockSize)
+		copy(mid, sw.block.buf[:])
+		following = [][]byte{mid, next}
+	case 3:
+		mw := &LogWriter{logNum: logNum, block: &block{}}
+		mw.syncedOffset.Store(0) // proves nothing
+		mw.emitFragmentSyncOffsets(0, sym.BytesN("mid-payload", 1))
+		mid := make([]byte, blockSize)
+		copy(mid, mw.block.buf[:])
+		following = [][]byte{mid, next}
+	}
+
+	r := &Reader{r: &hBlocks{blocks: following}, logNum: logNum, blockNum: 0, begin: pos, end: pos, n: blockSize, invalidOffset: math.MaxUint64}
 	copy(r.buf[:], blk)
 	// The damaged chunk is the one at pos: paths on which nextChunk first skips over intact
 	// chunks or a zeroed block tail (and so meets damage further on) are cut - the same step
